@@ -29,7 +29,7 @@ PROPERTY = "C17"
 LEVEL = "fault_enumeration"
 SHARDS = {"quick": 8, "thorough": 16}
 RULE = ("directory trees assembled from file kinds {valid 1.0 XML/JSON/YAML, valid 1.1 XML/JSON/YAML, empty, non-XML "
-        "text, malformed XML, XML of another vocabulary, 1.0 file with an unnamed Section} with unique base names: all "
+        "text, malformed XML, XML of another vocabulary, 1.0 file with an unnamed Section, empty / unparsable / non-odML .json and .yaml} with unique base names: all "
         "multisets of <= 3 kinds (quick: a seeded sample, thorough: complete) in seeded order and nesting (0-2 "
         "sub-directory levels) x recursive on/off x explicit/implicit output directory x tool {odmlconvert, odmltordf, "
         "FormatConverter for v1_1, odml, xml, turtle, nt, n3, json-ld, pretty-xml, ttl, ntriples, nt11, trig}; "
@@ -42,10 +42,11 @@ ASSUMPTIONS = ["each case runs in the worker process with cwd set to a private s
 REQUIRED_MONITORS = ["inputs-intact", "writes-confined", "outputs-right", "isolates"]
 
 KINDS = ["v10-xml", "v10-json", "v10-yaml", "v11-xml", "v11-json", "v11-yaml", "empty", "text", "malformed-xml",
-         "other-vocabulary", "v10-unnamed-section"]
+         "other-vocabulary", "v10-unnamed-section", "empty-json", "text-json", "empty-yaml", "text-yaml", "yaml-not-odml"]
 EXT = {"v10-xml": ".xml", "v10-json": ".json", "v10-yaml": ".yaml", "v11-xml": ".xml", "v11-json": ".json",
        "v11-yaml": ".yaml", "empty": ".xml", "text": ".xml", "malformed-xml": ".odml", "other-vocabulary": ".xml",
-       "v10-unnamed-section": ".xml"}
+       "v10-unnamed-section": ".xml", "empty-json": ".json", "text-json": ".json", "empty-yaml": ".yaml",
+       "text-yaml": ".yaml", "yaml-not-odml": ".yaml"}
 FC_FORMATS = ["v1_1", "odml", "xml", "turtle", "nt", "n3", "json-ld", "pretty-xml", "ttl", "ntriples", "nt11", "trig"]
 
 
@@ -82,8 +83,14 @@ def make_file(rng, kind_, path):
             text = json.dumps(emit.dict_from_model(spec), indent=1)
         else:
             text = yaml.safe_dump(emit.dict_from_model(spec), allow_unicode=True)
-    elif kind_ == "empty":
+    elif kind_ in ("empty", "empty-json", "empty-yaml"):
         text = ""
+    elif kind_ == "text-json":
+        text = "not json at all {\n"
+    elif kind_ == "text-yaml":
+        text = "key: [unclosed, list\nother: {a: 1\n"
+    elif kind_ == "yaml-not-odml":
+        text = "- just\n- a list\n"
     elif kind_ == "text":
         text = "just some notes, not markup\nsecond line\n"
     elif kind_ == "malformed-xml":
@@ -158,6 +165,15 @@ def check_outputs_cli(rec, tool, files, out_dirs, report, case, recursive, indir
         rec.monitor("isolates")
         if considered and path not in report and os.path.basename(path) not in report:
             rec.violation("%s/report-omits-file:%s" % (tool, info["kind"]), "%s not mentioned" % os.path.basename(path), case)
+        if considered and not convertible(info, tool) and not info["kind"].startswith("v11"):
+            # reported and skipped: nothing in the output location may pass for its conversion
+            rec.monitor("outputs-right")
+            for d in out_dirs:
+                for dp, _, fns in os.walk(d):
+                    for fn in fns:
+                        if os.path.splitext(fn)[0] in (base, base + "_conv"):
+                            rec.violation("%s/unconvertible-file-has-output:%s" % (tool, info["kind"]),
+                                          "%s -> %s" % (os.path.basename(path), fn), case)
         if not considered or not convertible(info, tool):
             continue
         is10 = info["kind"].startswith("v10")
